@@ -2319,13 +2319,20 @@ class FuncEmitter:
         return x
 
     def root_local(self, local):
-        """follows bitcast definitions back to the underlying SSA value"""
+        """follows bitcasts and all-zero-index GEPs (base-class sub-object at offset 0) back to the underlying SSA value"""
         seen = 0
         while seen < 8:
             d = self.defs.get(local)
-            if not d or not d.startswith('bitcast '):
+            if not d:
                 return local
-            mm = re.match(r'bitcast \S.*?(%(?:"[^"]*"|[-\w.$]+)) to ', d)
+            if d.startswith('bitcast '):
+                mm = re.match(r'bitcast \S.*?(%(?:"[^"]*"|[-\w.$]+)) to ', d)
+            elif d.startswith('getelementptr '):
+                mm = re.match(r'getelementptr (?:inbounds )?.*?(%(?:"[^"]*"|[-\w.$]+))((?:, i(?:32|64) 0)+)\s*$', d)
+                if mm and ('%' in d[mm.end(1):]):
+                    mm = None
+            else:
+                mm = None
             if not mm:
                 return local
             local = mm.group(1)
